@@ -6,7 +6,7 @@ From HV Require Gen.GData Gen.GInt Gen.GTable Gen.GHuff.
 Extraction Language OCaml.
 Set Extraction KeepSingleton.
 Separate Extraction
-  GData.REQUEST_CODES GData.REQUEST_CODES_LENGTH
+  GData.REQUEST_CODES GData.REQUEST_CODES_LENGTH GData.DEFAULT_SIZE
   GInt.encode_integer GInt.decode_integer
   GTable.table_entry_size GTable.HeaderTable_add GTable.HeaderTable_set_maxsize
   GTable.HeaderTable_get_by_index GTable.HeaderTable_search
